@@ -18,6 +18,9 @@ def facts(repo, cfg):
     out.append(nat("strNewNulRoom",
                    find_int(b_new, r"=\s*\(\s*sizeof\s*\([^)]*\)\s*-\s*sizeof\s*\([^)]*\)\s*\)\s*\+\s*" + ID + r"\s*\+\s*(\d+)\s*;"),
                    "_json_object_new_string: objsize = (sizeof(*jso) - sizeof(jso->c_string)) + len + N"))
+    # if (len >= INT_MAX - N) return NULL;   (what json_object_get_string_len, an int, cannot report is refused)
+    out.append(nat("strNewIntGuardSlack", find_int(b_new, ID + r"\s*>=\s*INT_MAX\s*-\s*(\d+)"),
+                   "_json_object_new_string: len >= INT_MAX - N is refused"))
     b_set = func_body(src, "_json_object_set_string_len")
     # if (len >= INT_MAX - N) return 0;
     out.append(nat("strSetGuardSlack", find_int(b_set, ID + r"\s*>=\s*INT_MAX\s*-\s*(\d+)"),
